@@ -26,10 +26,12 @@ from fibertree import Metrics, Tensor
 from fibertree.model import Format, Traffic
 
 SPEC = {
-    "rule": ("cases = (i) every read-only access sequence of length <= L over <= 3 lines (cache: capacities 0..3 "
-             "lines and unbounded; simulator + exhaustive optimum), every read/write sequence over 2 lines, and "
-             "every read/write/staging-write sequence over 2 lines x every split into eviction windows (buffet, "
-             "evict-on root and outer rank); (ii) random single-binding traces over 1-3 loop ranks (read-only, "
+    "rule": ("cases = (i) every read-only access sequence (up to renaming of lines) of length <= 8 over <= 3 lines and "
+             "<= 7 over 4 lines (thorough: 10 / 9) under the cache at capacities 0..3 lines and unbounded (simulator + "
+             "exhaustive optimum), every read / write / read-modify-write sequence of length <= 5 (6) over 2 lines "
+             "under the cache, and every read / write / staging-write / read-modify-write sequence of length <= 4 (5) "
+             "over 2 lines x every split into eviction windows under the buffet (evict-on root and outer rank); "
+             "(ii) random single-binding traces over 1-3 loop ranks (read-only, "
              "write-only, read+write, staging writes, line sizes of 1/2/4 elements and padded lines, coord / "
              "payload / elem bindings, tensors spanning any subset of the loop ranks, renamed loop ranks), each "
              "run under the buffet for every legal evict-on and under the cache for capacities 0..unbounded, plus "
@@ -41,12 +43,13 @@ SPEC = {
     "shards": {"quick": 16, "thorough": 16},
     "budget_s": {"quick": 0, "thorough": 500},
     "timeout_s": {"quick": 900, "thorough": 1500},
-    "min_counts": {"quick": {"evaluations": 1500, "oracle_evals": 30000, "model_calls": 8000, "buffet_calls": 2500,
-                             "cache_calls": 4000, "optimum_checked": 1500, "listing_checked": 8000,
-                             "filter_calls": 100, "combine_calls": 100, "kernel_cases": 30, "lineperm_checked": 300,
-                             "multi_binding_calls": 300, "staging_writes_seen": 300},
-                   "thorough": {"evaluations": 20000, "oracle_evals": 400000, "model_calls": 100000,
-                                "optimum_checked": 20000, "kernel_cases": 300}},
+    "min_counts": {"quick": {"evaluations": 8000, "oracle_evals": 300000, "model_calls": 40000, "buffet_calls": 15000,
+                             "cache_calls": 20000, "fnu_checked": 15000, "optimum_checked": 5000,
+                             "listing_checked": 40000, "filter_calls": 600, "combine_calls": 300, "kernel_cases": 150,
+                             "lineperm_checked": 1200, "multi_binding_calls": 6000, "staging_writes_seen": 4000},
+                   "thorough": {"evaluations": 100000, "oracle_evals": 4000000, "model_calls": 400000,
+                                "fnu_checked": 200000, "optimum_checked": 50000, "kernel_cases": 2000,
+                                "filter_calls": 8000, "combine_calls": 4000}},
     "assumptions": [
         "well-formed trace file = header + rows whose iteration stamps strictly increase inside the file; a read "
         "row and a write row (different files) may share a stamp, the read is first",
@@ -62,6 +65,11 @@ SPEC = {
         "input's loop ranks are a prefix of the filter's",
         "a trace file whose rank was never reached by the kernel (no header at all) is not a trace; such real "
         "traces are skipped",
+        "cache write-backs are compared with the same simulator (a dirty line is written back once when it leaves, "
+        "a bypassed write is written through), under their own violation keys",
+        "violation keys carry the input class of the run (multi-binding; write-traced bindings whose rank extents "
+        "differ; read and write rows of different lines on one stamp; staging lines beside another binding of "
+        "the same rank) so that one mechanism maps to one key; the class never excuses a violation",
         "overflow counts are not part of the statement; only `unbounded capacity -> 0 overflows` is looked at",
     ],
 }
@@ -317,8 +325,8 @@ def _rand_multi(rng):
         tensors[t] = {"ranks": tr, "shape": [max([b["_shape"] for b in mine if b["rank"] == r] or [rng.randint(2, 9)])
                                               for r in tr]}
     for b in bindings:
-        # rows were generated against the binding's own line count; the tensor's extent of that rank is
-        # the largest among the bindings sharing it (staging rows of the smaller ones are regenerated as plain)
+        # rows were generated against the binding's own extent; the tensor's extent of a rank is the largest
+        # among the bindings sharing it (the oracle classifies rows against the tensor's extent)
         b.pop("_shape")
     deepest = max(order.index(b["rank"]) for b in bindings)
     evicts = []
@@ -368,7 +376,7 @@ def _rand_combine(rng):
 
 
 def _rand_kernel(rng):
-    m, k, n = rng.randint(1, 4), rng.randint(2, 6), rng.randint(2, 8)
+    m, k, n = rng.randint(1, 4), rng.randint(2, 6), rng.choice([rng.randint(2, 8), rng.randint(2, 8), rng.randint(9, 12)])
     da, db = rng.choice([0.4, 0.6, 0.8]), rng.choice([0.3, 0.5, 0.8])
     a = [[(rng.randint(1, 3) if rng.random() < da else 0) for _ in range(k)] for _ in range(m)]
     b = [[(rng.randint(1, 3) if rng.random() < db else 0) for _ in range(n)] for _ in range(k)]
